@@ -53,6 +53,9 @@ type c08Case struct {
 	Limit    int64  `json:"limit,omitempty"`     // declared-over-limit: the read limit
 	// ColdPools: the collector runs twice before every message is read (empties the library's sync.Pools)
 	ColdPools bool `json:"cold_pools,omitempty"`
+	// HoldWriter: the application has an outgoing message open (a Writer obtained and not yet
+	// closed) while it reads
+	HoldWriter bool `json:"hold_writer,omitempty"`
 }
 
 func c08CompMode(comp string) string {
@@ -317,6 +320,14 @@ func c08OneP(c *fw.Ctx, cs c08Case, prop string) {
 		nc = websocket.NetConn(context.Background(), conn, websocket.MessageBinary)
 	}
 
+	if cs.HoldWriter {
+		hctx, hcancel := mxGuard(mxGuardTime)
+		defer hcancel()
+		if _, err := conn.Writer(hctx, websocket.MessageText); err != nil {
+			c.EngineError(desc + ": could not open a Writer: " + err.Error())
+			return
+		}
+	}
 	for i, m := range cs.Msgs {
 		L := limits[i]
 		if nc != nil && i == 0 && !m.SetLimit {
@@ -589,6 +600,19 @@ func c08Cases(thorough bool) []c08Case {
 				m2 := c08Msg{Size: 10, Framing: "one", SetLimit: true, Limit: 1024}
 				m3 := c08Msg{Size: 10, Framing: "one"}
 				out = append(out, c08Case{Kind: "limit", Client: client, Comp: comp, API: api, Msgs: []c08Msg{m1, m2, m3}})
+			}
+		}
+	}
+	// an over-limit message arrives while the application has an outgoing message open
+	for _, client := range []bool{false, true} {
+		for _, api := range []string{"read", "reader"} {
+			for _, comp := range []string{"off", "zeros"} {
+				for _, L := range []int64{125, 4096} {
+					for _, size := range []int{int(L), int(L) + 1, int(2 * L)} {
+						m := c08Msg{Size: size, Framing: "one", SetLimit: true, Limit: L}
+						out = append(out, c08Case{Kind: "limit", Client: client, Comp: comp, API: api, Msgs: []c08Msg{m}, HoldWriter: true})
+					}
+				}
 			}
 		}
 	}
